@@ -51,7 +51,11 @@ func loadSchemas() []*schemaInfo {
 	var out []*schemaInfo
 	for _, n := range names {
 		var roots []protoreflect.MessageDescriptor
-		for _, p := range setFiles[n] {
+		files := setFiles[n]
+		if files == nil {
+			files = linkedFiles[n]
+		}
+		for _, p := range files {
 			fd, err := protoregistry.GlobalFiles.FindFileByPath(p)
 			if err != nil {
 				panic(err)
